@@ -154,7 +154,7 @@ def _maxvar(costs):
                       if isinstance(p.value, L.SArr) and p.value.shape == (N,) else False)
         obj2 = SObj(cls_ref(AQ, "MaxVarianceDecoupledAcquisition"), {"model": model, "out_dim": m, "evaluation_index": None, "costs": cst})
         p2 = t.run(AQ, "MaxVarianceDecoupledAcquisition.forward", [x], self_val=obj2)
-        t.prove("missing_evaluation_index_raises_AssertionError", z3.BoolVal(bool(p2) and all(p.kind == "raise" and p.value[0] == "AssertionError" for p in p2)))
+        t.prove("missing_evaluation_index_is_rejected_with_an_exception", z3.BoolVal(bool(p2) and all(p.kind == "raise" for p in p2)))
     return _t
 
 
@@ -215,7 +215,7 @@ def _locate(t):
     tol = z3.RealVal("1/1000000")
     far = z3.Or(*[z3.And(*[dist(i, j) > tol for j in range(D)]) for i in range(N)])
     raised = z3.Or(*[p.cond() for p in paths if p.kind == "raise"]) if any(p.kind == "raise" for p in paths) else z3.BoolVal(False)
-    t.prove("raises_ValueError_exactly_when_some_query_is_farther_than_1e-6_from_every_design", raised == far, timeout_ms=90000)
+    t.prove("is_rejected_with_an_exception_exactly_when_some_query_is_farther_than_1e-6_from_every_design", raised == far, timeout_ms=90000)
 
     def goal(p):
         if p.kind != "return":
